@@ -207,4 +207,20 @@ def randoms(tier, rng):
                 k = rng.randint(1, 8); seg.append(dict(op="rm", a=k, b=0)); seg.append(dict(op="put", a=k, b=2)); have.add(k)
         cyc.append(seg)
     out.append(dict(tag="cycle", segs=cyc, trace_consts=TRACE_CONSTS, replays=_replays([rng.randint(0, 3)])))
+    # the same on a tree that has never been walked completely: a walk given up after two or three keys leaves stamps below
+    # ancestors that carry none; one segment per number of one-step walks around the counter period, so that one of them
+    # puts the wrap-around right before the final complete walk whatever the counter was at the start
+    part = []
+    for j in ((2, 3) if tier != "cross" else (2,)):
+        for n in range(250, 259):
+            seg = []
+            have = rng.sample(range(1, 9), rng.randint(5, 8))
+            for k in have:
+                seg.append(dict(op="put", a=k, b=1))
+            seg += [dict(op="next", a=0, b=0)] * j + [dict(op="abandon", a=0, b=0)]
+            seg += [dict(op="next", a=0, b=0), dict(op="abandon", a=0, b=0)] * n
+            seg.append(dict(op="walk", a=0, b=0))
+            seg.append(dict(op="walk", a=0, b=0))
+            part.append(seg)
+    out.append(dict(tag="cycle-partial", segs=part, trace_consts=TRACE_CONSTS, replays=_replays([rng.randint(0, 3)])))
     return out
